@@ -2568,6 +2568,10 @@ func c05_runC05(e *Env) {
 		"70 % sharing a 32-48 byte stem, printable and arbitrary bytes), next to short byte slices, bytes 0-255, ints up to 2^40, floats, bools, nil: HashKey() of every member against HV.key, " +
 		"SortedItems/Iter/Inspect/List against setListing, the law 'listed in ascending order of the values' on the real listing, and 60 % of the sets (<= 12 members) built, iterated, printed, " +
 		"converted (string, list, json.marshal, sprintf) by a script evaluated 2-8 times in-process and once in each of 4-16 fresh processes; non-trivial when >= 2 members are longer than 32 bytes; " +
+		"J: risor.DefaultGlobals: every name that more than one of the five builtin tables (builtins, http, fmt, os, dns) defines, plus a sample of the others, probed (0 and 65 arguments) on 48-64 fresh DefaultGlobals() maps " +
+		"against the entry of the table the model's mergeTables names (the last table of the slice that defines it), and scripts calling each shared name with 0/1/2/64/65/66/100 arguments, bare and under try, evaluated 48-64 times under default globals; " +
+		"non-trivial when >= 2 tables define the name; K: FSImporter over an in-memory filesystem that records every Open and delays chosen files (0-3 ms: the file the model picks, random, descending), extension lists (default or 1-4 custom in random order), " +
+		"0-4 candidate files per module name (70 % each) with different bodies, `import m` in a script or Import() by the host, 16-24 times: the file read and the files probed against pickExtension; non-trivial when >= 2 candidate files exist; " +
 		"module-defined and OS-backed objects and error messages about such objects by repetition and the pointer rule only. A case is one program / one probe input; " +
 		"distinct by its text; non-trivial when it contains a map/set literal, a default argument or a map/set iteration (all A and B programs do), " +
 		"or, for probes, when the map has >= 2 entries. 7 of 8 programs stay inside the guard NoBigMap."
@@ -2585,6 +2589,10 @@ func c05_runC05(e *Env) {
 		f()
 		e.R.Note("stream %s: %.1fs", name, time.Since(t0).Seconds())
 	}
+	// streams J and K (c05merge.go): tables merged in the fixed order of a slice (DefaultGlobals);
+	// candidates probed in a priority order (FSImporter's extension list) under filesystem latencies
+	timed("c05DefaultGlobalsMerge", func() { c05DefaultGlobalsMerge(e, min(reps*6, 64)) })
+	timed("c05ImportExtensions", func() { c05ImportExtensions(e, min(nSite, 400), min(reps*2, 24)) })
 	timed("c05SiteMounts", func() { c05SiteMounts(e, min(nSite, 600), min(reps*2, 48)) })
 	timed("c05HashKeys", func() { c05HashKeys(e, min(nSite, 600), min(reps, 32), kids) })
 	// stream G (c05walk.go): containers with several failing elements
